@@ -99,18 +99,28 @@ def _guard(fn, mode, budget):
 
     def on_alarm(signum, frame):
         _hang_stats["tripped"] = True
+        if _os.environ.get("VERIF_DEBUG"):
+            import sys as _sys
+            _sys.stderr.write("[guard] alarm at %.1fs cpu in %s:%d\n" % (time.process_time(), frame.f_code.co_filename, frame.f_lineno))
         raise HangAbort()
 
     signal.signal(signal.SIGVTALRM, on_alarm)
+
+    unknown_only = bool(_os.environ.get("VERIF_NO_HANG_GUARD"))
 
     def ended_by_budget():
         with NoTracing():
             signal.setitimer(signal.ITIMER_VIRTUAL, 0)
             _hang_stats["aborted_paths"] += 1
-            if mode == "main":
+            if mode == "main" and not unknown_only:
                 _hang_stats["last_aborted"] = True
-        if mode == "main":
+        if mode == "main" and not unknown_only:
             return False
+        if mode == "main":
+            # second analysis of an obligation whose slow path returned normally in the concrete replay: the budget only
+            # enforces the per-path time-out (the engine checks its own only at solver calls); the path stays unexplored
+            from crosshair.util import UnexploredPath
+            raise UnexploredPath("path exceeded the per-path CPU budget")
         raise IgnoreAttempt("path exceeded the per-path CPU budget")
 
     @functools.wraps(fn)
@@ -144,8 +154,8 @@ def analyze(fn, mode="main", timeout=60.0, per_path_timeout=None, max_iterations
     _hang_stats["aborted_paths"] = 0
     _hang_stats["last_aborted"] = False
     raw_fn = fn
-    if per_path_timeout and not _os.environ.get("VERIF_NO_HANG_GUARD"):
-        fn = _guard(raw_fn, mode, max(5.0, 0.8 * float(per_path_timeout)))
+    if per_path_timeout:
+        fn = _guard(raw_fn, mode, max(5.0, (1.0 if _os.environ.get("VERIF_NO_HANG_GUARD") else 0.8) * float(per_path_timeout)))
     for k in _solver_stats:
         _solver_stats[k] = 0 if k != "secs" else 0.0
     sig = inspect.signature(fn)
